@@ -41,7 +41,9 @@ var parseable = []reflect.Type{
 
 func leafPalette(r *coqfmt.Rng) reflect.Type {
 	tup, tuv := rty.TextUTypes()
-	switch x := r.Intn(20); {
+	switch x := r.Intn(21); {
+	case x == 20:
+		return coqfmt.Pick(r, rty.NamedScalars())
 	case x < 13:
 		return coqfmt.Pick(r, parseable)
 	case x == 13:
@@ -55,7 +57,7 @@ func leafPalette(r *coqfmt.Rng) reflect.Type {
 	case x == 17:
 		return coqfmt.Pick(r, []reflect.Type{reflect.TypeOf(map[string]int(nil)), reflect.TypeOf(map[string]struct{}(nil))})
 	case x == 18:
-		return coqfmt.Pick(r, []reflect.Type{reflect.TypeOf(rty.NLevel(0)), reflect.TypeOf(rty.NName("")), reflect.TypeOf(rty.NCount(0))})
+		return coqfmt.Pick(r, rty.NamedScalars()) // a declared type of every scalar kind
 	default:
 		return reflect.TypeOf("")
 	}
@@ -80,17 +82,10 @@ func leafClass(t reflect.Type) int {
 	switch t.Kind() {
 	case reflect.Array, reflect.Uintptr:
 		return kErr
-	case reflect.String, reflect.Bool, reflect.Int, reflect.Int8, reflect.Int16, reflect.Int32, reflect.Uint,
-		reflect.Uint8, reflect.Uint16, reflect.Uint32, reflect.Uint64:
-		if t.Name() == "" || t.PkgPath() == "" {
-			return kParse
-		}
-		return kSkip
-	case reflect.Int64:
-		if t == tDuration || t.PkgPath() == "" {
-			return kParse
-		}
-		return kSkip
+	case reflect.String, reflect.Bool, reflect.Int, reflect.Int8, reflect.Int16, reflect.Int32, reflect.Int64, reflect.Uint,
+		reflect.Uint8, reflect.Uint16, reflect.Uint32, reflect.Uint64, reflect.Float32, reflect.Float64,
+		reflect.Complex64, reflect.Complex128:
+		return kParse // predeclared or declared: parse.String dispatches on the kind
 	}
 	return kSkip
 }
@@ -258,6 +253,24 @@ func genText(r *coqfmt.Rng, t reflect.Type) (text string, bad bool) {
 		}
 		return coqfmt.Pick(r, []string{"1", "t", "T", "TRUE", "true", "True", "0", "f", "F", "FALSE", "false", "False"}), false
 	}
+	switch t.Kind() {
+	case reflect.Float32, reflect.Float64:
+		if r.Chance(1, 6) {
+			if t.Kind() == reflect.Float32 && r.Chance(1, 2) {
+				return coqfmt.Pick(r, []string{"1e39", "-4e38"}), true
+			}
+			return coqfmt.Pick(r, []string{"", "x", "1..2", "--1", "1e", "1e400"}), true
+		}
+		return coqfmt.Pick(r, floatTexts), false
+	case reflect.Complex64, reflect.Complex128:
+		if r.Chance(1, 6) {
+			if t.Kind() == reflect.Complex64 && r.Chance(1, 2) {
+				return coqfmt.Pick(r, []string{"1e39+1i", "1-4e38i"}), true
+			}
+			return coqfmt.Pick(r, []string{"", "i", "1+i", "(1+2i", "x"}), true
+		}
+		return coqfmt.Pick(r, complexTexts), false
+	}
 	signed := false
 	switch t.Kind() {
 	case reflect.Int, reflect.Int8, reflect.Int16, reflect.Int32, reflect.Int64:
@@ -268,6 +281,12 @@ func genText(r *coqfmt.Rng, t reflect.Type) (text string, bad bool) {
 	}
 	if r.Chance(1, 8) {
 		return coqfmt.Pick(r, garbage), true
+	}
+	if r.Chance(1, 10) {
+		if signed {
+			return coqfmt.Pick(r, []string{"0", "-0", "+0", "00", "0x0"}), false
+		}
+		return coqfmt.Pick(r, []string{"0", "00", "0x0", "0b0"}), false
 	}
 	bits := uint(t.Bits())
 	// magnitude
@@ -355,6 +374,10 @@ func genTextMode(r *coqfmt.Rng, t reflect.Type, allowBad bool) (string, bool) {
 	}
 }
 
+// decimal texts whose value times 1024 is an integer (the model carries floats that way)
+var floatTexts = []string{"0", "0.0", "-0", "1", "-2", "1.5", "-0.25", "3.125", "100", "1e2", ".5", "1.", "+2", "25e-2", "1E3", "2.5e1"}
+var complexTexts = []string{"0", "(1+2i)", "1.5-0.25i", "3", "2i", "-2i", "1e2+1e1i", "-1-1i", "(0+0i)", "+1.5+.5i"}
+
 func genTextAny(r *coqfmt.Rng) string {
 	return coqfmt.Pick(r, []string{"x", "1", "true", "", "a,b", "1s"})
 }
@@ -396,7 +419,8 @@ func run(raw json.RawMessage) driver.Result {
 	o := rty.NamedOpts{MaxDepth: in.Depth, MaxWidth: in.Width, Leaf: leafPalette, Inits: inits,
 		TagNum: 1, TagDen: 4, SrcTags: []string{"dialsenv"}, SrcTagNum: 1, SrcTagDen: 6,
 		SrcTagGen: func(r *coqfmt.Rng) string { return coqfmt.Pick(r, envTagVocab) },
-		Embedded:  true, Skipped: true, SingleLetterNum: 1, SingleLetterDen: 8}
+		Embedded:  true, Skipped: true, SingleLetterNum: 1, SingleLetterDen: 8,
+		OddTags: []string{"_", "__", "-_", "_-_", "-x", "x_", "_x_y", "x-", "--", ""}, OddTagNum: 1, OddTagDen: 30}
 	if r.Chance(1, 5) {
 		o.AliasKeys = []string{"dials", "dialsenv"}
 		o.AliasNum, o.AliasDen = 1, 4
